@@ -37,7 +37,7 @@ package revocation
 // The bit string handed back is everything the gzip stream of the given encoded list inflates to.
 //@ func expand
 //@   prop C11
-//@   assume-benign
+//@   modifies nothing
 //@   call (*base64.Encoding).DecodeString #1 requires [decodes-the-given-list] arg(1) == encodedList
 //@   call bytes.NewBuffer #1 requires [inflates-the-decoded-bytes] isNilIface(ret(call (*base64.Encoding).DecodeString #1).1) && arg(0) == ret(call (*base64.Encoding).DecodeString #1).0
 //@   call gzip.NewReader #1 requires [inflates-the-decoded-bytes] arg(0) == io.Reader(ret(call bytes.NewBuffer #1))
@@ -74,7 +74,7 @@ package revocation
 // A downloaded list is used only when it matches the spec, its encoded list inflates and its signature verifies.
 //@ func (*StatusList2021).verify
 //@   prop C01 C11
-//@   assume-benign
+//@   modifies nothing
 //@   ensures [only-validated-and-signature-checked-lists] isNilIface(result.1) ==>
 //@        isNilIface(ret(call (*StatusList2021).validate #1).1) && result.0 == ret(call (*StatusList2021).validate #1).0 && result.0 != nil
 //@        && arg(call (*StatusList2021).validate #1, 1) == cred
@@ -85,7 +85,7 @@ package revocation
 // from the URL the credential names, verified, about that very URL, with all of its bits.
 //@ func (*StatusList2021).update
 //@   prop C01 C11
-//@   assume-benign
+//@   modifies nothing
 //@   ensures isNilIface(result.1) ==> result.0 != nil
 //@   ensures [record-is-the-verified-list-of-that-url] isNilIface(result.1) ==>
 //@        isNilIface(ret(call (*StatusList2021).download #1).1) && arg(call (*StatusList2021).download #1, 1) == statusListCredential
@@ -100,7 +100,7 @@ package revocation
 // external list that is expired or older than maxAgeExternal is refreshed first.
 //@ func (*StatusList2021).statusList
 //@   prop C01 C11
-//@   assume-benign
+//@   modifies nothing
 //@   ensures isNilIface(result.1) ==> result.0 != nil
 //@   ensures [stored-or-freshly-downloaded-list-of-that-url] isNilIface(result.1) ==> arg(call (*StatusList2021).loadCredential #1, 1) == statusListCredential
 //@        && ( (isNilIface(ret(call (*StatusList2021).loadCredential #1).1) && result.0 == ret(call (*StatusList2021).loadCredential #1).0)
